@@ -50,7 +50,14 @@ ServeFull(st, t) == {st.full[i].id : i \in {j \in 1..Len(st.full) : st.full[j].t
 
 (* Output.get_data; ids: set of admissible payload ids, or {} with err.     *)
 (* A static output serves its only data set for any time (t = None too).   *)
-Get(cfg, st, k, t) ==
+(* the time that reaches the output when end point k is asked for tq: an input behind a DelayToPush ("tpass", *)
+(* and "shared" inputs on the same adapter) is answered for min(tq, newest publication)                        *)
+RECURSIVE Carrier(_, _)
+Carrier(cfg, k) == IF k > 1 /\ cfg.kinds[k] = "shared" THEN Carrier(cfg, k - 1) ELSE k
+ReqT(cfg, st, k, tq) ==
+  IF tq # None /\ st.full # <<>> /\ cfg.kinds[Carrier(cfg, k)] = "tpass" THEN Min2(tq, Last(st.full).t) ELSE tq
+Get(cfg, st, k, tq) ==
+  LET t == ReqT(cfg, st, k, tq) IN
   IF st.pubs = <<>> THEN [st |-> st, ids |-> {}, err |-> "FinamNoDataError"]
   ELSE IF cfg.static THEN [st |-> st, ids |-> {st.pubs[1].id}, err |-> ""]
   ELSE IF ~InRange(st, t) THEN [st |-> st, ids |-> {}, err |-> "FinamTimeError"]
